@@ -91,8 +91,18 @@ def run_mpi_cases(chk, cases, timeout=240, retries=1):
             rejected = False
             all_ok = True
             for r, txt in enumerate(texts):
-                fake = vlib.CaseResult(res.cmd, 0, txt, "", False, res.wall, res.tag + "/rank%d" % r)
                 rec = vlib.parse_records(txt)
+                # Before the termination condition holds, GVT rounds over MPI may take seconds when a rank is flooded with speculative
+                # traffic (its receive loop starves the reduction): a stall or an exhausted event budget while every thread is still in the
+                # main loop is slow progress, not a shutdown defect => inconclusive. Stalls during shutdown stay violations of C08.
+                keep = []
+                for prop, key, detail in rec["viol"]:
+                    if prop == "C08" and (key == "runaway:event-budget" or (key == "hang" and "signature=loop ::" in detail)):
+                        chk.inconc_case("slow progress in the main loop on %s rank %d (%s)" % (res.tag, r, key))
+                        chk.stats["mpi_main_loop_stalls_inconclusive"] = chk.stats.get("mpi_main_loop_stalls_inconclusive", 0) + 1
+                    else:
+                        keep.append((prop, key, detail))
+                rec["viol"] = keep
                 # count a case once (rank 0), counters from every rank
                 if r != 0 and "cases" in rec["stats"]:
                     rec["stats"]["cases"] = 0
@@ -102,8 +112,9 @@ def run_mpi_cases(chk, cases, timeout=240, retries=1):
                 for prop, key, detail in rec["viol"]:
                     chk.violation(key, detail, {"cmd": res.cmd, "rank": r, "case": {k: v for k, v in c.items() if k != "exe"}}, prop=prop)
                 m = re.search(r"^HANGSIG (.*)$", txt, re.M)
-                if m:
-                    anomaly = "hang:" + m.group(1)
+                if m and not (anomaly or "").startswith("hang:drain"):
+                    sigx = m.group(1)
+                    anomaly = ("slow:" if (sigx == "loop" or sigx.startswith("runaway-events")) else "hang:") + sigx
                 if "models_rejected" in rec["stats"]:
                     rejected = True
                 all_ok &= rec["ok"]
@@ -118,7 +129,7 @@ def run_mpi_cases(chk, cases, timeout=240, retries=1):
                 chk.violation("sanitizer:" + sk, res.err[:2500], {"cmd": res.cmd}, prop="C11")
             if res.timed_out and not anomaly:
                 anomaly = "timeout"
-                chk.inconc("wall-clock backstop on %s (inconclusive)" % res.tag)
+                chk.inconc_case("wall-clock backstop on %s" % res.tag)
             if not anomaly and not rejected:
                 if not all_ok:
                     anomaly = "noend"
@@ -128,7 +139,7 @@ def run_mpi_cases(chk, cases, timeout=240, retries=1):
                     if bad:
                         chk.violation("lp-not-reported-exactly-once-across-ranks", "%s: LPs %s reported by ranks %s" % (res.tag, bad[:6], [owners.get(b) for b in bad[:6]]), {"cmd": res.cmd}, prop="C14")
             out.append((c, res, texts, anomaly))
-            if anomaly and anomaly.startswith(("hang:", "san:")) and chk.prop not in ("C08", "C11"):
+            if anomaly and anomaly.startswith(("hang:", "san:", "slow:")) and (chk.prop not in ("C08", "C11") or anomaly.startswith("slow:")):
                 c2 = dict(c)
                 c2["pseed"] = c["pseed"] + 1000003 * (attempt + 1)
                 again.append(c2)
